@@ -5,15 +5,17 @@ history with <= N revisions (ordered parents, <= 2 parents; variants with one
 ghost parent, left- or right-hand), every target tip t and source tip s
 (including the empty branch) whose joint ancestry (with the master's, for bound
 targets) covers the DAG, every stop revision in the source ancestry (and none),
-overwrite in {False, True}, append_revisions_only in {off, on}, unbound targets
+overwrite in {False, True, set(), {history}, {tags}, {history,tags}} (the largest
+DAG size, append-only and bound targets: False, True, {tags}), append_revisions_only in {off, on}, unbound targets
 and targets bound to a master at every tip m, through Branch.pull, Branch.push,
 GenericInterBranch._update_revisions, plus generate_revision_history,
 set_last_revision_info and update() for the append-only clause.  Source,
 target and master live in three separate real 2a repositories on an mc.vfs
 store; tips are reset by writing the branch's last-revision file.  A git<->git
-sub-run (real on-disk git repositories, histories written with dulwich, pull and
-push with stop revisions and overwrite; signatures prefixed git:) covers DAGs
-with <= 2 (quick) / 4 (thorough) commits.
+sub-run (real on-disk git repositories, histories written with dulwich, plus bzr
+copies imported by the real fetch) covers the format pairs git->git, git->bzr and
+bzr->git (pull and push, stop revisions, the six overwrite values; signatures
+prefixed git: / git->bzr: / bzr->git:) for DAGs with <= 3 (quick) / 4 (thorough) commits.
 Oracle, from the statement, on the declarative DAG: without overwrite the tip
 moves to the requested revision iff it descends from the current tip, stays
 when the target already contains it, otherwise DivergedBranches and no change;
@@ -147,6 +149,21 @@ def check_info(acc, w, name, info, detail, what):
 
 FAILS = ("DivergedBranches", "AppendRevisionsOnlyViolation", "GhostRevisionsHaveNoRevno")
 
+# The overwrite argument of pull/push: a bool or a set of aspects; history may only be
+# overwritten when it is True or contains "history" ({"tags"} is what --overwrite-tags passes).
+OVERWRITES = (("False", False), ("True", True), ("set()", frozenset()), ("{history}", frozenset(["history"])),
+              ("{tags}", frozenset(["tags"])), ("{history,tags}", frozenset(["history", "tags"])))
+OVERWRITES_SHORT = (("False", False), ("True", True), ("{tags}", frozenset(["tags"])))
+
+
+def overwrites_history(value):
+    return value is True or (not isinstance(value, bool) and "history" in value)
+
+
+def ow_arg(value):
+    """A fresh argument object for the call (sets are passed as real, mutable sets)."""
+    return value if isinstance(value, bool) else set(value)
+
 
 def run_op(w, op, tname, stop, overwrite, sname="s"):
     """Perform one operation on fresh Branch objects; returns outcome string."""
@@ -157,9 +174,9 @@ def run_op(w, op, tname, stop, overwrite, sname="s"):
     stop_id = None if stop is None else w.revid(stop)
     try:
         if op == "pull":
-            tgt.pull(src, overwrite=overwrite, stop_revision=stop_id)
+            tgt.pull(src, overwrite=ow_arg(overwrite), stop_revision=stop_id)
         elif op == "push":
-            src.push(tgt, overwrite=overwrite, stop_revision=stop_id)
+            src.push(tgt, overwrite=ow_arg(overwrite), stop_revision=stop_id)
         elif op == "update_revisions":
             InterBranch.get(src, tgt)._update_revisions(stop_revision=stop_id, overwrite=overwrite)
         elif op == "update":
@@ -190,7 +207,7 @@ def judge_target(acc, w, sig0, detail, tname, old, x, overwrite, aro, outcome, n
     if new == "bad":
         return
     if outcome.startswith("exc:"):
-        acc.violation("%stip-update:%s" % ("git:" if sig0.startswith("git:") else "", outcome[4:]),
+        acc.violation("%stip-update:%s" % (sig0.rsplit(":", 1)[0] + ":" if ("git" in sig0.split(":")[0]) else "", outcome[4:]),
                       dict(detail, branch=tname))
         return
     rel = relation(ref, old, x)
@@ -263,18 +280,21 @@ def check_dag(acc, dag, ghosts, thorough):
                     for tname, aro in (("t", False), ("ta", True)):
                         for stop in stops:
                             x = s if stop is None else stop
-                            for overwrite in (False, True):
+                            for owname, owval in (OVERWRITES if (not aro and full) else OVERWRITES_SHORT):
+                                overwrite = overwrites_history(owval)
                                 for op in (("pull", "push", "update_revisions") if (not aro or full)
                                            else ("pull", "push")):
+                                    if op == "update_revisions" and not isinstance(owval, bool):
+                                        continue        # takes the history flag only
                                     w.set_tip(tname, t)
-                                    outcome = run_op(w, op, tname, stop, overwrite)
+                                    outcome = run_op(w, op, tname, stop, owval)
                                     new_info = w.read_tip(tname)
                                     acc.n += 1
                                     detail = dict(base_detail, op=op, target_tip=t, source_tip=s, stop=stop,
-                                                  overwrite=overwrite, append_only=aro)
+                                                  overwrite=owname, append_only=aro)
                                     sig0 = op
                                     judge_target(acc, w, sig0, detail, tname, t, x, overwrite, aro, outcome, new_info)
-                                    acc.outcomes.add((op, relation(ref, t, x), overwrite, aro, outcome.split("@")[0]))
+                                    acc.outcomes.add((op, relation(ref, t, x), owname, aro, outcome.split("@")[0]))
                                     if w.read_tip("s") != w.info(s):
                                         acc.violation("%s:source-tip-changed" % op, detail)
                                         w.set_tip("s", s)
@@ -301,18 +321,19 @@ def check_dag(acc, dag, ghosts, thorough):
                     for tname, aro, mname, maro, all_stops in bound_sets:
                         for stop in (stops if (all_stops and full) else stops[:1]):
                             x = s if stop is None else stop
-                            for overwrite in (False, True):
+                            for owname, owval in OVERWRITES_SHORT:
+                                overwrite = overwrites_history(owval)
                                 for op in ("pull", "push"):
                                     w.set_tip(tname, t)
                                     w.set_tip(mname, m)
-                                    outcome = run_op(w, op, tname, stop, overwrite)
+                                    outcome = run_op(w, op, tname, stop, owval)
                                     new_t = w.read_tip(tname)
                                     new_m = w.read_tip(mname)
                                     acc.n += 1
                                     detail = dict(base_detail, op=op + "(bound)", target_tip=t, master_tip=m, source_tip=s,
-                                                  stop=stop, overwrite=overwrite, append_only=aro, master_append_only=maro)
+                                                  stop=stop, overwrite=owname, append_only=aro, master_append_only=maro)
                                     sig0 = op + ":bound"
-                                    acc.outcomes.add((sig0, relation(ref, t, x), relation(ref, m, x), overwrite, aro, maro,
+                                    acc.outcomes.add((sig0, relation(ref, t, x), relation(ref, m, x), owname, aro, maro,
                                                       outcome.split("@")[0]))
                                     judge_bound(acc, w, sig0, detail, tname, mname, t, m, x, overwrite, aro, maro,
                                                 outcome, new_t, new_m)
@@ -405,6 +426,7 @@ class GitW:
         self.ghosts = frozenset()
         self.ref = dw.Ref(dag)
         self.dir = boot.scratch("c21git")
+        self.bzr_names = set()
         self.trees = {}
         self.shas = None
         for name in ("s", "t"):
@@ -430,9 +452,18 @@ class GitW:
         self.revids = [b.repository.lookup_foreign_revision_id(x) for x in self.shas]
         self.nodes = {r: i for i, r in enumerate(self.revids)}
         self.present = list(range(len(dag)))
+        # bzr (2a) copies of the same history (revisions imported from the git source by the real
+        # inter-repository fetch), one used as source and one as target of the cross-format pairs
+        from mc import world as mw
+        for name in ("bs", "bt"):
+            bz = mw.make_branch(os.path.join(self.dir, name), "2a")
+            for h in gen.heads(dag, range(len(dag))):
+                bz.repository.fetch(b.repository, revision_id=self.revids[h])
+            self.bzr_names.add(name)
 
     def url(self, name):
-        return self.trees[name].basedir
+        import os
+        return os.path.join(self.dir, name)
 
     def node_of(self, revid):
         return self.nodes.get(revid, revid)
@@ -446,6 +477,11 @@ class GitW:
         return (len(self.ref.lefthand(tip)), self.revids[tip])
 
     def set_tip(self, name, tip):
+        if name in self.bzr_names:
+            import os
+            with open(os.path.join(self.dir, name, ".bzr", "branch", "last-revision"), "wb") as f:
+                f.write(b"%d %s\n" % self.info(tip))
+            return
         repo = self.trees[name].branch.repository._git
         if tip is None:
             try:
@@ -467,6 +503,9 @@ class GitW:
         shutil.rmtree(self.dir, ignore_errors=True)
 
 
+FORMAT_PAIRS = (("git->git", "s", "t"), ("git->bzr", "s", "bt"), ("bzr->git", "bs", "t"))
+
+
 def check_dag_git(acc, dag):
     n = len(dag)
     w = GitW(dag)
@@ -474,29 +513,34 @@ def check_dag_git(acc, dag):
     try:
         tips = [None] + w.present
         for s in tips:
-            w.set_tip("s", s)
             stops = [None] + (sorted(ref.anc(s)) if s is not None else [])
             for t in tips:
                 if not covering(ref, n, (), (t, s)):
                     continue
                 for stop in stops:
                     x = s if stop is None else stop
-                    for overwrite in (False, True):
-                        for op in ("pull", "push"):
-                            w.set_tip("t", t)
-                            outcome = run_op(w, op, "t", stop, overwrite)
-                            new_info = w.read_tip("t")
-                            acc.n += 1
-                            acc.count("git_ops")
-                            detail = {"dag": dag, "vcs": "git", "op": op, "target_tip": t, "source_tip": s,
-                                      "stop": stop, "overwrite": overwrite}
-                            judge_target(acc, w, "git:" + op, detail, "t", t, x, overwrite, False, outcome, new_info)
-                            acc.outcomes.add(("git:" + op, relation(ref, t, x), overwrite, outcome.split("@")[0]))
-                            if w.read_tip("s") != w.info(s):
-                                acc.violation("git:%s:source-tip-changed" % op, detail)
-                                w.set_tip("s", s)
-                            if t is not None and x is not None and x != t:
-                                acc.nt(("git", dag, t, s, stop))
+                    for pair, sname, tname in FORMAT_PAIRS:
+                        if pair != "git->git" and stop is not None and stop != s and n > 2:
+                            continue        # explicit stop revisions below the tip: git->git only beyond 2 commits
+                        w.set_tip(sname, s)
+                        for owname, owval in OVERWRITES:
+                            overwrite = overwrites_history(owval)
+                            for op in ("pull", "push"):
+                                w.set_tip(tname, t)
+                                outcome = run_op(w, op, tname, stop, owval, sname=sname)
+                                new_info = w.read_tip(tname)
+                                acc.n += 1
+                                acc.count("git_ops")
+                                detail = {"dag": dag, "vcs": pair, "op": op, "target_tip": t, "source_tip": s,
+                                          "stop": stop, "overwrite": owname}
+                                sig0 = ("git:" if pair == "git->git" else pair + ":") + op
+                                judge_target(acc, w, sig0, detail, tname, t, x, overwrite, False, outcome, new_info)
+                                acc.outcomes.add((sig0, relation(ref, t, x), owname, outcome.split("@")[0]))
+                                if w.read_tip(sname) != w.info(s):
+                                    acc.violation("%s:source-tip-changed" % sig0, detail)
+                                    w.set_tip(sname, s)
+                                if t is not None and x is not None and x != t:
+                                    acc.nt((pair, dag, t, s, stop))
     finally:
         w.close()
 
@@ -552,7 +596,7 @@ def run(ctx):
     GN = ctx.q(3, 4)
     items = items_for(N, GN, ctx.thorough)
     acc = par.merge(par.pmap(_work, items, seed=ctx.seed, chunks_per_job=8))
-    GITN = ctx.q(2, 4)
+    GITN = ctx.q(3, 4)
     git_items = [d for k in range(1, GITN + 1) for d in gen.dags(k) if len(gen.heads(d, range(k))) <= 2]
     acc_git = par.merge(par.pmap(_work_git, git_items, seed=ctx.seed, chunks_per_job=4))
     acc.merge(acc_git)
